@@ -119,8 +119,10 @@ func (dsp *DataStreamProcessor) ConfigurePulseLengths(nsamp, npre int) error {
 // ConfigureTrigger sets this stream's trigger state.
 func (dsp *DataStreamProcessor) ConfigureTrigger(state TriggerState) error {
 	dsp.TriggerState = state
-	dsp.LastTrigger = 0 // forget the Last Trigger, so that all channels will auto trigger
-	// at the same starting point when you send new trigger settings
+	// Forget the last trigger, so that all channels will auto trigger at the same starting point
+	// when you send new trigger settings. "Forget" means far in the past, as in a new processor:
+	// frame 0 would act as a phantom trigger that hides pulses in the first NSamples frames.
+	dsp.LastTrigger = math.MinInt64 / 4
 
 	// we currently have two locations where we have nsamp and npre inside a dsp
 	// we should fix that, but for now just keep them in sync	dsp.EMTState.nsamp = int32(dsp.NSamples)
